@@ -63,6 +63,10 @@ class BuildError(Exception):
     pass
 
 
+class ModelError(Exception):
+    pass
+
+
 CHUNK_TIMEOUT = 90          # seconds for one harness process to answer its chunk (normally a few seconds)
 
 
@@ -269,7 +273,7 @@ def coq_eval_cases(cases, label, shard_size=250):
     with ThreadPoolExecutor(max_workers=JOBS) as ex:
         for p, r in ex.map(one, files):
             if r.returncode != 0:
-                raise RuntimeError("model evaluation failed for %s: %s" % (p, (r.stderr or r.stdout)[-1500:]))
+                raise ModelError("model evaluation failed for %s: %s" % (p, (r.stderr or r.stdout)[-1500:]))
             txt = " ".join(r.stdout.split())
             m = re.search(r"= (.*) : list \(Z \* list Z\)", txt)
             if not m:
